@@ -180,9 +180,11 @@ class HedGroup:
             else:
                 group_list.append((child, child._sorted(update_self)))
 
-        tag_list.sort(key=lambda x: str(x[0]))
+        # Tags and groups that are equal are equal whatever their letter case: order them without regard to case, so
+        # that equal ones end up next to each other
+        tag_list.sort(key=lambda x: (str(x[0]).casefold(), str(x[0])))
         # Order groups by their sorted contents, so equal groups are adjacent however their members were written
-        group_list.sort(key=lambda x: (self._sorted_list_to_str(x[1]), str(x[0])))
+        group_list.sort(key=lambda x: (self._sorted_list_to_str(x[1]).casefold(), str(x[0])))
         output_list = tag_list + group_list
         if update_self:
             self.children = [x[0] for x in output_list]
